@@ -16,7 +16,7 @@ ASSUMPTIONS = [
     "group_nearby_members sub-group ids are compared as a partition of the rows, not by number",
 ]
 OPS = ops.RED + ["var", "std", "median", "quantile"] + ops.CUM + ops.ROLL + ops.SHIFT + ["ema", "ema"] + ops.SEL + ["nearby"]
-N_CASES = {"quick": 800, "thorough": 22000}
+N_CASES = {"quick": 800, "thorough": 8000}
 ops.KIND.setdefault("nearby", "row")
 
 
